@@ -317,6 +317,11 @@ class MetadorDataset(MetadorNode):
             self._guard_acl(NodeAcl.read_only, key)
         if self.acl[NodeAcl.skel_only] and key in self._self_SKEL_FORBIDDEN:
             self._guard_acl(NodeAcl.skel_only, key)
+        if key == "dims":
+            # dimension scales: labels can be changed, the attached scales are
+            # handed out as raw datasets that can be located anywhere in the file
+            for flag in NodeAcl:
+                self._guard_acl(flag, key)
 
         return getattr(self.__wrapped__, key)
 
